@@ -462,11 +462,14 @@ class World:
             kind = self.case["loaders"].get(name, "dict")
             tm = dict(self.case["templates"])
             tm.update(self.edits.get(name, {}))  # the loader's CURRENT contents
-            if kind == "shared" and self.shared and name == "B" and self.case["loaders"].get("A") == "caching":
+            if kind == "shared" and self.shared and name == "B" and str(self.case["loaders"].get("A")).startswith("caching"):
                 # one caching loader object serving two environments (A may have filters/tags B lacks)
                 env = Environment(loader=self.env("A").loader)
             else:
-                env = Environment(loader=CachingDictLoader(tm) if kind in ("caching", "shared") else DictLoader(tm))
+                if kind == "caching-nr":  # auto_reload off: a hit is returned without asking anything
+                    env = Environment(loader=CachingDictLoader(tm, auto_reload=False))
+                else:
+                    env = Environment(loader=CachingDictLoader(tm) if kind in ("caching", "shared") else DictLoader(tm))
             if name == "A":
                 for what in self.regs:
                     apply_reg(env, what, self.undo)
@@ -669,7 +672,7 @@ def history_case(draw: Any, tier: str, disabled: frozenset[str]) -> dict[str, An
     ops = draw(st.lists(_op_strategy(trefs, nsrc, len(data), disabled, sorted(templates)), min_size=3, max_size=hi))
     return {
         "t0": draw(st.sampled_from([1_000_000_000, 1_152_098_955, 1_700_000_000 - 1, 951_782_399, 86399])),
-        "loaders": {"A": draw(st.sampled_from(["dict", "caching"])), "B": draw(st.sampled_from(["dict", "caching", "shared"]))},
+        "loaders": {"A": draw(st.sampled_from(["dict", "caching", "caching", "caching-nr"])), "B": draw(st.sampled_from(["dict", "caching", "shared"]))},
         "templates": templates,
         "sources": sources,
         "data": data,
@@ -809,18 +812,24 @@ class C09(Prop):
                              ("pg_child", "part_base")):
             tref = ["A", "g", page]
             for hist in ([["r", tref, 0], ["ed", "A", edited, 1], ["r", tref, 0], ["ed", "A", edited, 2], ["ra", tref, 0]],
-                         [["ra", tref, 0], ["ed", "A", edited, 1], ["r", tref, 0]]):
+                         [["ra", tref, 0], ["ed", "A", edited, 1], ["r", tref, 0]],
+                         # static analysis walks the partials the loader holds NOW, every time it is asked
+                         [["an", tref], ["ed", "A", edited, 1], ["an", tref], ["r", tref, 0], ["an", tref]]):
                 yield {"t0": 1_000_000_000, "loaders": {"A": "dict", "B": "dict"}, "templates": {**templates, **pages},
                        "sources": list(HAND), "data": data, "h": hist}
 
         # one caching loader object shared by two environments, only one of them configured
-        for probe in (11, 12):
-            ga, gb = ["A", "g", f"h{probe}"], ["B", "g", f"h{probe}"]
+        wrapped = {**templates, "w11": "{% render 'h11', d: d %}", "w12": "{% include 'h12' %}"}
+        for probe in (11, 12, "w11", "w12"):
+            pname = probe if isinstance(probe, str) else f"h{probe}"
+            ga, gb = ["A", "g", pname], ["B", "g", pname]
             for first, second in ((ga, gb), (gb, ga)):
-                yield {"t0": 1_000_000_000, "loaders": {"A": "caching", "B": "shared"}, "templates": templates,
-                       "sources": list(HAND), "data": data,
-                       "h": [["reg", "filter-new"], ["reg", "filter-override"], ["reg", "tag-new"],
-                             ["r", first, 0], ["r", second, 0], ["r", first, 0], ["new", second], ["r", second, 1]]}
+                for akind in ("caching", "caching-nr"):
+                    for rop in ("r", "ra"):
+                        yield {"t0": 1_000_000_000, "loaders": {"A": akind, "B": "shared"}, "templates": wrapped,
+                               "sources": list(HAND), "data": data,
+                               "h": [["reg", "filter-new"], ["reg", "filter-override"], ["reg", "tag-new"],
+                                     [rop, first, 0], [rop, second, 0], [rop, first, 0], ["new", second], [rop, second, 1]]}
 
     # ------------------------------------------------------------------ oracle
 
